@@ -17,9 +17,8 @@ Set Implicit Arguments.
 (* ---- names ------------------------------------------------------------------------------ *)
 Lemma name_eqb_eq a b : name_eqb a b = true <-> a = b.
 Proof.
-  destruct a, b; simpl; split; intros H; try congruence; try discriminate.
-  - apply String.eqb_eq in H. congruence.
-  - inversion H. apply String.eqb_refl.
+  destruct a, b; simpl; split; intros H; try congruence; try discriminate;
+    try (apply String.eqb_eq in H; congruence); try (inversion H; apply String.eqb_refl).
 Qed.
 
 Lemma name_eqb_refl a : name_eqb a a = true.
@@ -56,6 +55,69 @@ Proof.
   destruct (name_eqb n Adv) eqn:E.
   - apply name_eqb_eq in E. subst. left. reflexivity.
   - right. apply dedup_In. apply filter_In. split; auto. rewrite E. reflexivity.
+Qed.
+
+(* ---- aliasing classes cover every way the advertised name can end ------------------------------ *)
+Lemma smem'_In s l : smem' s l = true <-> In s l.
+Proof.
+  induction l as [|t l IH]; simpl.
+  - split; [discriminate|tauto].
+  - rewrite orb_true_iff, IH, String.eqb_eq. split; intros [H|H]; auto.
+Qed.
+
+Lemma canon_id s n : (forall t, n = Sfx t -> t <> s) -> canon (Some s) n = n.
+Proof.
+  intros H. destruct n as [|t|u]; simpl; try reflexivity.
+  destruct (String.eqb t s) eqn:E; [|reflexivity].
+  apply String.eqb_eq in E. exfalso. exact (H t eq_refl E).
+Qed.
+
+Lemma sfx_strings_In t l : In (Sfx t) l -> In t (sfx_strings l).
+Proof.
+  induction l as [|n l IH]; simpl; [tauto|]. intros [->|H]; simpl; auto.
+  destruct n; simpl; auto.
+Qed.
+
+Lemma sfx_strings_app a b : sfx_strings (a ++ b) = sfx_strings a ++ sfx_strings b.
+Proof.
+  induction a as [|n a IH]; simpl; [reflexivity|]. destruct n; simpl; rewrite ?IH; reflexivity.
+Qed.
+
+Lemma map_prim_id f p : (forall n, In n (names_prim p) -> f n = n) -> map_prim f p = p.
+Proof.
+  destruct p; simpl; intros H; rewrite ?H; simpl; auto.
+Qed.
+
+Lemma map_op_id f o : (forall n, In n (names_op o) -> f n = n) -> map_op f o = o.
+Proof.
+  destruct o as [p|n p|n p]; simpl; intros H.
+  - rewrite map_prim_id; auto.
+  - rewrite H, map_prim_id; simpl; auto.
+  - rewrite H, map_prim_id; simpl; auto.
+Qed.
+
+Lemma resolve_other s p :
+  ~ In s (sfx_strings (flat_map names_op p)) -> resolve (Some s) p = p.
+Proof.
+  intros H. unfold resolve.
+  assert (G : forall o, In o p -> map_op (canon (Some s)) o = o).
+  { intros o Ho. apply map_op_id. intros n Hn. apply canon_id. intros t -> E. subst t.
+    apply H. apply sfx_strings_In. apply in_flat_map. exists o. auto. }
+  induction p as [|o p IH]; simpl; [reflexivity|].
+  rewrite G by (left; reflexivity). f_equal. apply IH.
+  - intros Hin. apply H. simpl. rewrite sfx_strings_app. apply in_or_app. right. exact Hin.
+  - intros o' Ho'. apply G. right. exact Ho'.
+Qed.
+
+Theorem all_classes_sound (chk : list op -> bool) (p : list op) :
+  all_classes chk p = true -> forall sg : option string, chk (resolve sg p) = true.
+Proof.
+  unfold all_classes. rewrite andb_true_iff, forallb_forall. intros [Hp Hc] sg.
+  destruct sg as [s|].
+  - destruct (smem' s (sfx_strings (flat_map names_op p))) eqn:E.
+    + apply Hc. unfold classes. right. apply in_map. apply smem'_In. exact E.
+    + rewrite resolve_other; [exact Hp|]. intros Hin. apply smem'_In in Hin. congruence.
+  - apply Hc. left. reflexivity.
 Qed.
 
 (* ---- list helpers ------------------------------------------------------------------------- *)
@@ -482,6 +544,26 @@ Proof.
   - exact (@safe_complete p E).
 Qed.
 
+(* the verdict for every way the advertised file name can end *)
+Theorem verdict_all (p : list op) :
+  if all_classes safe p
+  then forall (sg : option string)
+              (C : Type) (C_eq_dec : forall x y : C, {x = y} + {x <> y}) (pl : platform)
+              (s : fs C) (c0 : C) (cs : list C) (s' : fs C),
+         holds s c0 -> history pl (resolve sg p) s cs s' -> exists c, holds s' c /\ In c (c0 :: cs)
+  else exists q : list op, (q = p \/ exists sg, q = resolve sg p) /\
+       exists (pl : platform) (s s' : fs tok),
+         (holds s Old \/ holds s New) /\ In s' (trace pl New q s) /\
+         ~ (holds s' Old \/ holds s' New).
+Proof.
+  destruct (all_classes safe p) eqn:E.
+  - intros sg. exact (@every_later_autosave (resolve sg p) (all_classes_sound safe p E sg)).
+  - unfold all_classes in E. apply andb_false_iff in E. destruct E as [E|E].
+    + exists p. split; [left; reflexivity | exact (@safe_complete p E)].
+    + destruct (forallb_false_ex _ _ E) as [sg [_ Hs]]. exists (resolve sg p).
+      split; [right; exists sg; reflexivity | exact (@safe_complete _ Hs)].
+Qed.
+
 (* premises are satisfiable / the check is not vacuous *)
 Open Scope string_scope.
 Definition atomic_replace : list op := [Do (Write (Sfx "new")); Do (Replace (Sfx "new") Adv)].
@@ -489,6 +571,19 @@ Definition atomic_replace : list op := [Do (Write (Sfx "new")); Do (Replace (Sfx
 Lemma atomic_replace_safe :
   safe atomic_replace = true /\ fresh atomic_replace = true /\ completes atomic_replace = true.
 Proof. repeat split; vm_compute; reflexivity. Qed.
+
+(* appending the temporary suffix never collides with the advertised name; replacing the last
+   suffix does, when the advertised name itself ends in that suffix *)
+Definition atomic_replace_appended : list op := [Do (Write (App "new")); Do (Replace (App "new") Adv)].
+
+Lemma appended_safe_every_class :
+  all_classes safe atomic_replace_appended = true /\ all_classes fresh atomic_replace_appended = true /\
+  all_classes completes atomic_replace_appended = true.
+Proof. repeat split; vm_compute; reflexivity. Qed.
+
+Lemma replaced_suffix_unsafe_when_aliased :
+  all_classes safe atomic_replace = false /\ safe (resolve (Some "new") atomic_replace) = false.
+Proof. split; vm_compute; reflexivity. Qed.
 
 Lemma write_in_place_unsafe : safe [Do (Write Adv)] = false.
 Proof. vm_compute. reflexivity. Qed.
